@@ -45,12 +45,22 @@ fn build(cfg: &Value, sim: &Sim, seed: u64, mode: u64) -> MkFn {
     let (er, lr) = (u("er") as f64 / 100.0, u("lr") as f64 / 100.0);
     if u("er") == 0 && cfg["noinj"].as_u64().unwrap_or(0) == 1 {
         // latency-only chaos: the default (no) error injector
-        let layer = ChaosLayer::builder().latency_rate(lr).min_latency(Duration::from_millis(u("mn"))).max_latency(Duration::from_millis(u("mx"))).seed(seed).build();
+        let layer = if cfg["ord"].as_u64().unwrap_or(0) >= 2 {
+            ChaosLayer::builder().seed(seed).max_latency(Duration::from_millis(u("mx"))).min_latency(Duration::from_millis(u("mn"))).latency_rate(lr).build()
+        } else {
+            ChaosLayer::builder().latency_rate(lr).min_latency(Duration::from_millis(u("mn"))).max_latency(Duration::from_millis(u("mx"))).seed(seed).build()
+        };
         mkfn!(layer.layer(inner), mode)
     } else {
         let (mn, mx) = (Duration::from_millis(u("mn")), Duration::from_millis(u("mx")));
         // builder call order: latency settings before or after the (typestate-changing) error settings
-        let layer = if cfg["ord"].as_u64().unwrap_or(0) == 1 {
+        let ord = cfg["ord"].as_u64().unwrap_or(0);
+        let layer = if ord == 2 {
+            // the upper latency bound before the lower one, both before the error settings
+            ChaosLayer::builder().max_latency(mx).min_latency(mn).latency_rate(lr).seed(seed).error_fn(inject as fn(&Req) -> IErr).error_rate(er).build()
+        } else if ord == 3 {
+            ChaosLayer::builder().error_fn(inject as fn(&Req) -> IErr).seed(seed).max_latency(mx).error_rate(er).latency_rate(lr).min_latency(mn).build()
+        } else if ord == 1 {
             ChaosLayer::builder()
                 .latency_rate(lr)
                 .min_latency(mn)
@@ -167,9 +177,9 @@ pub fn run_chaos(seed: u64, size: Size, out: &mut Vec<String>) -> (usize, usize)
     let nseeds = if size == Size::Quick { 6 } else { 120 };
     for er in [0u64, 30, 100] {
         for lr in [0u64, 30, 100] {
-            for (mn, mx) in [(10u64, 10u64), (10, 20), (20, 10), (0, 0), (0, 3)] {
+            for (mn, mx) in [(10u64, 10u64), (10, 20), (20, 10), (0, 0), (0, 3), (1, 5)] {
                 for s in 0..nseeds {
-                    cfgs.push((json!({"er":er,"lr":lr,"mn":mn,"mx":mx,"seeded":1,"noinj": (s % 2),"ord": ((s / 2) % 2)}), s as u64 * 7919 + seed));
+                    cfgs.push((json!({"er":er,"lr":lr,"mn":mn,"mx":mx,"seeded":1,"noinj": (s % 2),"ord": ((s / 2) % 4)}), s as u64 * 7919 + seed));
                 }
             }
         }
